@@ -684,7 +684,8 @@ func (req *Request) parsePostArgs() {
 		return
 	}
 	req.parsedPostArgs = true
-	if !bytes.HasPrefix(req.Header.ContentType(), bytestr.MIMEPostForm) {
+	// media types are case-insensitive (RFC 7231, 3.1.1.1)
+	if !hasPrefixFold(req.Header.ContentType(), bytestr.MIMEPostForm) {
 		return
 	}
 	req.postArgs.ParseBytes(req.Body())
